@@ -143,3 +143,12 @@ from contracts.c03 import simple_iface_unit  # noqa: E402
 
 for _c in ("DictInterface", "DataclassInterface", "NamedTupleInterface"):
     simple_iface_unit(_c, uid=f"C05.building_the_proposed_state_leaves_the_input_state_untouched.{_c}", prop="C05")
+
+
+# "log-density difference + log-correction": for the IWLS kernel the log-correction handed to mh_step is the one of the kernel's ACTUAL proposal - backward minus
+# forward density, each with the information matrix of the point it starts from (autodiff Hessian and user-supplied information; same harness as C06.iwls.*)
+from pyvc.unit import reuse as _reuse  # noqa: E402
+import contracts.c06  # noqa: E402,F401
+
+_reuse("C06.iwls.hessian", "C05.iwls_correction_is_that_of_the_actual_proposal.hessian", "C05")
+_reuse("C06.iwls.user_info", "C05.iwls_correction_is_that_of_the_actual_proposal.user_info", "C05")
